@@ -148,7 +148,7 @@ func filterSide(evs []event, specs map[string]*mwSpec, side string) []event {
 // compare judges one call's trace against the expected one and reports the
 // most specific discrepancy.  class is the kind of call (own | inherited |
 // oneway | publish+deliver).
-func (j *judge) compare(cfg *config, call, class string, specs map[string]*mwSpec, exp, act []event) bool {
+func (j *judge) compare(cfg interface{}, call, class string, specs map[string]*mwSpec, exp, act []event) bool {
 	if len(exp) == len(act) {
 		same := true
 		for i := range exp {
